@@ -187,9 +187,7 @@ def validateReturn (p : Prototype) : Bool :=
   let okc := match p.get .returnCount with
     | some r => isIntegerType r.dt
     | none => true
-  let oki := match p.get .returnIndex with
-    | some r => isIntegerType r.dt
-    | none => true
+  let oki := p.all (fun r => r.name != .returnIndex || isIntegerType r.dt)
   let n := boolToNat (p.get .returnCount).isSome + boolToNat (p.get .returnIndex).isSome
   okc && oki && (n == 0 || n == 2)
 
@@ -198,18 +196,18 @@ def validatePrototype (p : Prototype) : Bool :=
   validateCartesian p && validateSpherical p &&
   (p.has .cartesianX || p.has .sphericalAzimuth) &&
   validateColor p && validateReturn p &&
-  (match p.get .rowIndex with
-   | some r => isIntegerType r.dt
-   | none => true) &&
-  (match p.get .columnIndex with
-   | some r => isIntegerType r.dt
-   | none => true) &&
+  p.all (fun r => r.name != .rowIndex || isIntegerType r.dt) &&
+  p.all (fun r => r.name != .columnIndex || isIntegerType r.dt) &&
   (match p.get .isIntensityInvalid with
    | some r => p.has .intensity && r.dt == .integer 0 1
    | none => true) &&
   (match p.get .isTimeStampInvalid with
    | some r => p.has .timeStamp && r.dt == .integer 0 1
-   | none => true)
+   | none => true) &&
+  p.all (fun r => match r.dt with
+    | .integer mn mx => decide (mn ≤ mx)
+    | .scaled mn mx _ _ => decide (mn ≤ mx)
+    | _ => true)
 
 /-- `get_max_packet_points`: points of `pointBits` bits that fit a 64 KiB packet besides headers,
     incomplete bytes and a safety margin; zero-width points need no space at all -/
